@@ -1451,11 +1451,22 @@ def output_kind(got: Any, ref: Any) -> str:
 
 
 def recover_cap(shape: Shape, plan: list[dict]) -> int:
-    """recover() calls after which a scenario is cut off: planned failures, plus one collateral failure
-    per job and deletion, doubled, plus slack (1000 sampled correct runs needed at most 14 calls)"""
+    """recover() calls after which a scenario is cut off (a count, never a time): twice the planned
+    failures, plus for every deletion two collateral failures of each job that can be alive at the same
+    time (scatter width / number of branches / 2 for the sequential iterations of a loop), plus slack.
+    1000 sampled correct runs needed at most 14 calls; retry storms and the unbounded re-submission of
+    internal errors (up to ~2000 nested calls) are what it stops."""
     f = sum(p["times"] for p in plan)
     d = sum(p["times"] for p in plan if p["kind"] == "stop")
-    return 20 + 2 * f + 2 * d * min(len(shape.jobs()), 16)
+    if shape.kind == "scatter":
+        alive = shape.width + 1
+    elif shape.kind == "diamond":
+        alive = len(shape.desc["branches"]) + 1
+    elif shape.kind == "loop":
+        alive = 2
+    else:
+        alive = 1
+    return 16 + 2 * f + 2 * d * (alive + 1)
 
 
 def safe_retries(shape: Shape, plan: list[dict]) -> int:
